@@ -24,7 +24,50 @@ func sortStrings(s []string)                       { sort.Strings(s) }
 // ---------------------------------------------------------------------
 // case list
 
-const probeN = 480 // seed-independent block at the start of every case list
+// literalProbes are hand-made texts for root causes that random texts meet only rarely; they are
+// part of the seed-independent block so that their signatures exist at every seed.
+type literalProbe struct {
+	base  int
+	forms []string // "=tok" literal leaf, "=(a b c)" literal list
+	dirty string
+}
+
+var literalProbes = makeLiteralProbes()
+
+func makeLiteralProbes() (ps []literalProbe) {
+	// decimal digits that are not digits of *read-base* (bases 2..9): alone, signed, mixed with in-base digits
+	for base := 2; base <= 9; base++ {
+		d := string(rune('0' + base))
+		ps = append(ps, literalProbe{base: base, dirty: "digits-outside-read-base",
+			forms: []string{"=" + d, "=-" + d, "=(1" + d + " +" + d + "0 9)", "=10"}})
+	}
+	// letters around the edge of bases 11..35: last digit letter, first non-digit letter, float markers
+	for base := 11; base <= 35; base++ {
+		in := string(rune('a' + base - 11))
+		out := string(rune('a' + base - 10))
+		ps = append(ps, literalProbe{base: base,
+			forms: []string{"=1" + in, "=1" + out, "=(" + in + "0 " + out + "0 -" + in + " 1e2 1d2 1f2 1s2 1l2 1.5e2)", "=" + in + "/" + in + "1"}})
+	}
+	// barred punctuation symbols in every position of lists of 1..4 elements
+	for _, sym := range []string{".", "'", ",", "(", ")", ";", "`", "#", "\""} {
+		for n := 1; n <= 4; n++ {
+			for pos := 0; pos < n; pos++ {
+				elems := append([]string{}, []string{"a", "b", "c", "d"}[:n]...)
+				elems[pos] = "|" + sym + "|"
+				p := literalProbe{base: 10, forms: []string{"=(" + join(elems) + ")", "=|" + sym + "|"}}
+				if sym == "." && 3 <= n && pos == n-2 {
+					p.dirty = "barred-dot-in-list"
+				}
+				ps = append(ps, p)
+			}
+		}
+	}
+	return
+}
+
+const pairProbes = 14 * 14
+
+var probeN = pairProbes + len(literalProbes) + 300 // seed-independent block at the start of every case list
 
 var probeKinds = []string{"token", "string", "pipe", "char", "rint", "bits", "list", "dotted", "vector", "array", "complex", "quote", "function", "backquote"}
 
@@ -32,7 +75,7 @@ func nCases(tier string) int {
 	if tier == "thorough" {
 		return probeN + 20000
 	}
-	return probeN + 800
+	return probeN + 700
 }
 
 func gen(r *rand.Rand, i int, tier string) Case {
@@ -57,6 +100,9 @@ func gen(r *rand.Rand, i int, tier string) Case {
 	if dirty == "integer-point-nondecimal-base" && base == 10 {
 		base = fwPick(r, []int{2, 8, 16, 36})
 	}
+	if dirty == "digits-outside-read-base" && 10 <= base {
+		base = fwPick(r, []int{2, 8})
+	}
 	long := dirty == "" && r.IntN(100) < 4
 	var force []string
 	if i < len(probeKinds)*len(probeKinds) {
@@ -66,6 +112,12 @@ func gen(r *rand.Rand, i int, tier string) Case {
 		if i%3 == 2 {
 			force = append(force, "token")
 		}
+	}
+	if pairProbes <= i && i < pairProbes+len(literalProbes) {
+		lp := literalProbes[i-pairProbes]
+		c := build(r, lp.base, ff, "", 0, 3, lp.forms)
+		c.Dirty = lp.dirty
+		return c
 	}
 	var c Case
 	for try := 0; try < 40; try++ {
@@ -520,11 +572,43 @@ func countTrue(bs []bool) (n int) {
 
 // expectation compares what ReadString produced with what the generator
 // built the text from.
+// blame names the root cause of a disagreement with the expectation by the leaf that is
+// misread, not by the form it happens to sit in: the first leaf of the forms from..to that,
+// read on its own, is not what the generator made it from; else a structural cause.
+func (m *runner) blame(from, to int) string {
+	c := m.c
+	dot := false
+	for i := range c.Segs {
+		g := &c.Segs[i]
+		if g.F < from || to < g.F || g.W == "" {
+			continue
+		}
+		if g.K == "pipe" && g.W == `s:"."` {
+			dot = true
+		}
+		o := rdString(m.scope, c.Text[g.S:g.E]+" ")
+		m.nread++
+		if o.err != nil || len(o.approx) != 1 || o.approx[0] != g.W {
+			if g.K == "tok" {
+				return "leaf=tok:" + g.C
+			}
+			return "leaf=" + g.K
+		}
+	}
+	if dot {
+		return "barred-dot-in-list"
+	}
+	if from == to {
+		return "structure-of=" + c.Forms[from].Head
+	}
+	return "structure"
+}
+
 func (m *runner) expectation(base outcome) bool {
 	c, x := m.c, m.x
 	dirtySig := func() string { return "expect avoided-construct=" + c.Dirty }
 	if base.err != nil {
-		sig := "expect got=" + base.class()
+		sig := "expect got=" + base.class() + " cause=" + m.blame(0, len(c.Forms)-1)
 		if c.Dirty != "" {
 			sig = dirtySig()
 		}
@@ -532,7 +616,7 @@ func (m *runner) expectation(base outcome) bool {
 		return false
 	}
 	if len(base.vals) != len(c.Forms) {
-		sig := "expect got=wrong-count"
+		sig := "expect got=wrong-count cause=" + m.blame(0, len(c.Forms)-1)
 		if c.Dirty != "" {
 			sig = dirtySig()
 		}
@@ -546,7 +630,7 @@ func (m *runner) expectation(base outcome) bool {
 			continue
 		}
 		if base.approx[i] != f.Want {
-			sig := "expect got=other-object form=" + f.Head
+			sig := "expect got=other-object cause=" + m.blame(i, i)
 			if c.Dirty != "" {
 				sig = dirtySig()
 			}
